@@ -303,6 +303,11 @@ pub fn locate(r: &Rendered, d: &Diag) -> (String, i64, String) {
                 "invalid-stack-position", "invalid-stack-offset-usage", "unknown-ecall", "first-instruction-is-function", "invalid-jump-to-function",
             ];
             if (d.start_raw, d.end_raw) == (first, last) && (spans.len() > 1 || ABOUT_THE_INSTRUCTION.contains(&d.code.as_str())) {
+                // a diagnostic about a register that the statement does not write out (the `ra` of
+                // `call f`) designates the statement
+                if r.pseudo[si] && !ABOUT_THE_INSTRUCTION.contains(&d.code.as_str()) {
+                    return (d.code.clone(), si as i64, "register (explicit or implicit)".into());
+                }
                 return (d.code.clone(), si as i64, "whole".into());
             }
             for (k, sp) in spans.iter().enumerate() {
@@ -371,6 +376,7 @@ pub fn rename(p: &Program, regmap: &BTreeMap<Reg, Reg>, labelmap: &BTreeMap<Stri
                     Inst::Jal(a, l) => Inst::Jal(mr(*a), ml(l)),
                     Inst::Jalr(a, b, i) => Inst::Jalr(mr(*a), mr(*b), *i),
                     Inst::La(a, l) => Inst::La(mr(*a), ml(l)),
+                    Inst::LaUpper(a, l, lo) => Inst::LaUpper(mr(*a), ml(l), *lo),
                     Inst::Ecall => Inst::Ecall,
                     Inst::Csr(op, a, c, b) => Inst::Csr(*op, mr(*a), *c, mr(*b)),
                     Inst::CsrI(op, a, c, i) => Inst::CsrI(*op, mr(*a), *c, *i),
@@ -400,7 +406,7 @@ pub fn labels_mentioned(p: &Program) -> Vec<String> {
     let mut v = labels_defined(p);
     for i in p.insts() {
         let l = match i {
-            Inst::Jal(_, l) | Inst::Branch(_, _, _, l) | Inst::La(_, l) => l.clone(),
+            Inst::Jal(_, l) | Inst::Branch(_, _, _, l) | Inst::La(_, l) | Inst::LaUpper(_, l, _) => l.clone(),
             _ => continue,
         };
         if !v.contains(&l) {
